@@ -75,7 +75,7 @@ def observe(pendulum, x):
 
 def run_parse(pendulum, s, opts):
     try:
-        return observe(pendulum, pendulum.parse(s, now=NOW, **opts))
+        r = pendulum.parse(s, now=NOW, **opts)
     except ValueError:
         return ("ValueError",)
     except BaseException as e:  # noqa: BLE001  (a Rust panic is a BaseException: an escaping exception all the same)
@@ -85,6 +85,13 @@ def run_parse(pendulum, s, opts):
         tb = traceback.extract_tb(e.__traceback__)
         where = f"{tb[-1].filename.split('/')[-1]}:{tb[-1].name}" if tb else "?"
         return ("EXC", type(e).__name__, where)
+    try:
+        return observe(pendulum, r)
+    except BaseException as e:  # noqa: BLE001
+        if worker.is_control(e):
+            raise
+        # parse() returned an object whose own accessors raise (e.g. a UTC offset of 24 hours): not a supported value
+        return ("EXC", "unusable-value/" + type(e).__name__, type(r).__name__)
 
 
 def iso_accepts(swap, s):
